@@ -27,7 +27,9 @@ Inductive focus :=
      Expand, shape after Reshape; intermediate reused / graph output *)
 | FRepeat (inshape : list Z) (uaxis : Z) (eshape oshape : list Z) (reuse io : bool).
 
-Record case := { c_exact : bool; c_focus : focus; c_fired : bool; c_runs : list run }.
+(* c_rand: per configuration, did two consecutive runs of the loaded model produce different
+   values for the results of the graph's random operators ([] when there is none) *)
+Record case := { c_exact : bool; c_focus : focus; c_fired : bool; c_runs : list run; c_rand : list bool }.
 
 (* ---------------------------------------------------------------- guards *)
 Definition zlen (s : list Z) : Z := Z.of_nat (length s).
@@ -164,9 +166,17 @@ Fixpoint runs_ok (exact : bool) (base : list outT) (k : nat) (rs : list run) : b
   end.
 (* "optimization may only turn a failing run into a successful one": nothing is required when
    the unoptimized run fails *)
-Definition prop_ok (c : case) : bool :=
+Definition diff_ok (c : case) : bool :=
   match c_runs c with
   | ROk base :: rest => runs_ok (c_exact c) base 0 rest
   | _ => true
   end.
+(* a random operator that varies from run to run in the unoptimized model must still vary in
+   every optimized configuration (it must not have been folded into a constant) *)
+Definition rand_ok (c : case) : bool :=
+  match c_rand c with
+  | true :: rest => forallb (fun v => v) rest
+  | _ => true
+  end.
+Definition prop_ok (c : case) : bool := diff_ok c && rand_ok c.
 Definition show (c : case) := (guard_of (c_focus c), c_fired c, prop_ok c).
